@@ -171,8 +171,32 @@ example : render [] = "" := by decide
 
 /-! ## (iii) key resolution by tag priority -/
 
-theorem key_source_tag_first (t k key : String) (fm : FieldMeta) (h : lookupD fm.tags t = some k) :
-    Engine.keyFor (some t) fm key = k := by simp [Engine.keyFor, h]
+/-- the source tag names the key: the part before its first comma (options such as `,omitempty` are not
+    part of the name) -/
+theorem key_source_tag_first (t k key : String) (fm : FieldMeta) (h : lookupD fm.tags t = some k)
+    (hn : Engine.tagName k ≠ "") :
+    Engine.keyFor (some t) fm key = Engine.tagName k := by simp [Engine.keyFor, h, hn]
+
+/-- a tag without options names the key as it stands -/
+theorem tagName_plain (k : String) (h : ',' ∉ k.toList) : Engine.tagName k = k := by
+  unfold Engine.tagName
+  have : ∀ l : List Char, ',' ∉ l → l.takeWhile (fun c => c != ',') = l := by
+    intro l
+    induction l with
+    | nil => intro _; rfl
+    | cons c cs ih =>
+      intro hl
+      have hc : c ≠ ',' := fun e => hl (e ▸ List.mem_cons_self)
+      have hcs : ',' ∉ cs := fun m => hl (List.mem_cons_of_mem _ m)
+      simp [List.takeWhile_cons, hc, ih hcs]
+  rw [this _ h]; simp
+
+/-- a source tag that names nothing (`json:",omitempty"`, `json:""`) does not name the key -/
+theorem key_source_tag_without_name (t k key : String) (fm : FieldMeta) (h : lookupD fm.tags t = some k)
+    (hn : Engine.tagName k = "") :
+    Engine.keyFor (some t) fm key = (lookupD fm.tags "zog").getD key := by simp [Engine.keyFor, h, hn]
+
+example : Engine.tagName "name,omitempty" = "name" ∧ Engine.tagName ",omitempty" = "" ∧ Engine.tagName "j_name" = "j_name" := by decide
 
 theorem key_zog_tag_next (t z key : String) (fm : FieldMeta) (h : lookupD fm.tags t = none) (hz : lookupD fm.tags "zog" = some z) :
     Engine.keyFor (some t) fm key = z := by simp [Engine.keyFor, h, hz]
